@@ -28,6 +28,7 @@ CONSTANTS Txns,       \* transaction names
           FineTime,   \* TRUE: time also advances by 1 ms and to 1 ms before a timer; FALSE: timer to timer
           SlowWrites, \* BOOLEAN: also explore a first socket write that takes time
           SlowRtx,    \* "no" | "write": also a RETRANSMISSION whose socket write takes time and may fail | "close": and Close is called meanwhile
+          IgnoreToo,  \* BOOLEAN: also fire-and-forget transactions (ignoreResult)
           FailAts,    \* which transmission's write may fail: subset of 0..MaxSend (0 = never)
           MaxDepth
 
@@ -62,6 +63,19 @@ Start(t, fa) ==
                                           failAt |-> fa, res |-> "none"]]
             /\ out' = {Sent(t, 1)}
   /\ UNCHANGED closed
+
+(* PerformTransaction(ignoreResult = true), e.g. the Refresh with lifetime 0 of a closing relayed socket: the call   *)
+(* returns at once without a result; the transaction is in the table, is retransmitted on the same schedule, and    *)
+(* ends silently with the first response that carries its id, with the seventh timeout, or with Close               *)
+StartIgnore(t) ==
+  /\ ~RtxBusy /\ IgnoreToo
+  /\ txn[t].phase = "idle"
+  /\ last' = [a |-> "StartIgnore", t |-> t]
+  /\ txn' = [txn EXCEPT ![t] = [phase |-> "pending", nsent |-> 1, ivl |-> RTO, left |-> RTO,
+                                 failAt |-> 0, res |-> "none", ign |-> TRUE]]
+  /\ out' = {Sent(t, 1), Ret(t, "ignored")}
+  /\ UNCHANGED closed
+Ign(t) == "ign" \in DOMAIN txn[t]
 
 (* PerformTransaction whose first socket write is slow: the transaction is already in the table  *)
 (* (and can be answered or closed) while the caller is still inside conn.WriteTo                 *)
@@ -99,10 +113,18 @@ Response(t) ==
   /\ txn[t].phase # "idle"
   /\ last' = [a |-> "Response", t |-> t]
   /\ IF Pending(t)
-       THEN txn' = [txn EXCEPT ![t] = Done(t, "resp")] /\ out' = {Ret(t, "resp")}
+       THEN txn' = [txn EXCEPT ![t] = Done(t, "resp")] /\ out' = (IF Ign(t) THEN {} ELSE {Ret(t, "resp")})
        ELSE IF txn[t].phase = "writing" /\ txn[t].got = "none"
          THEN txn' = [txn EXCEPT ![t].got = "resp"] /\ out' = {}      \* delivered when the caller starts to wait
          ELSE UNCHANGED txn /\ out' = {}             \* duplicate / late: ignored
+  /\ UNCHANGED closed
+
+(* the response comes from another transport address than the one the request went to (a multi-homed server, a NAT    *)
+(* that rewrites the source): a transaction is matched by its id                                                      *)
+ResponseOther(t) ==
+  /\ ~InboundBusy /\ ~RtxBusy /\ Pending(t)
+  /\ last' = [a |-> "ResponseOther", t |-> t]
+  /\ txn' = [txn EXCEPT ![t] = Done(t, "resp")] /\ out' = (IF Ign(t) THEN {} ELSE {Ret(t, "resp")})
   /\ UNCHANGED closed
 
 Foreign ==
@@ -123,7 +145,7 @@ Close ==
   /\ txn' = [t \in Txns |-> IF Pending(t) THEN Done(t, "closed")
                             ELSE IF txn[t].phase = "writing" /\ txn[t].got = "none" THEN [txn[t] EXCEPT !.got = "closed"]
                             ELSE txn[t]]
-  /\ out' = {Ret(t, "closed") : t \in {x \in Txns : Pending(x)}}
+  /\ out' = {Ret(t, "closed") : t \in {x \in Txns : Pending(x) /\ ~Ign(x)}}
 
 (* time: onRtxTimeout for every timer that is due *)
 Lefts  == {txn[t].left : t \in {x \in Txns : Pending(x)}}
@@ -140,14 +162,14 @@ Advance(d) ==
   /\ LET due == {t \in Txns : Pending(t) /\ txn[t].left = d} IN
      /\ txn' = [t \in Txns |-> IF t \in due THEN Fire(t)
                               ELSE IF Pending(t) THEN [txn[t] EXCEPT !.left = @ - d] ELSE txn[t]]
-     /\ out' = {Ret(t, Fire(t).res) : t \in {x \in due : Fire(x).phase = "done"}}
+     /\ out' = {Ret(t, Fire(t).res) : t \in {x \in due : Fire(x).phase = "done" /\ ~Ign(x)}}
                \cup {Sent(t, Fire(t).nsent) : t \in {x \in due : Fire(x).phase = "pending"}}
   /\ UNCHANGED closed
 
 (* a retransmission whose socket write takes time.  The timer of exactly one transaction fires (not its last one), *)
 (* onRtxTimeout takes the table lock and enters conn.WriteTo -- and stays there.                                    *)
 RtxSlow(t) ==
-  /\ ~RtxBusy /\ Pending(t) /\ txn[t].left = MinLeft /\ txn[t].nsent < MaxSend /\ txn[t].failAt = 0
+  /\ ~RtxBusy /\ Pending(t) /\ ~Ign(t) /\ txn[t].left = MinLeft /\ txn[t].nsent < MaxSend /\ txn[t].failAt = 0
   /\ \A x \in Txns \ {t} : Pending(x) => txn[x].left > MinLeft
   /\ last' = [a |-> "RtxSlow", t |-> t, d |-> MinLeft]
   /\ txn' = [x \in Txns |-> IF x = t THEN [phase |-> "rewriting", nsent |-> txn[t].nsent, ivl |-> txn[t].ivl, left |-> 0, failAt |-> 0,
@@ -178,7 +200,7 @@ RtxWriteDone(t, ok) ==
 
 Next ==
   \/ \E t \in Txns, fa \in FailAts : Start(t, fa)
-  \/ \E t \in Txns : Response(t)
+  \/ \E t \in Txns : Response(t) \/ ResponseOther(t) \/ StartIgnore(t)
   \/ (SlowWrites /\ \E t \in Txns : StartSlow(t) \/ WriteDone(t) \/ WriteWait(t))
   \/ Foreign \/ Close \/ (\E t \in Txns : Indication(t))
   \/ \E d \in Jumps : Advance(d)
@@ -196,11 +218,12 @@ DepthBound == TLCGet("level") <= MaxDepth
 C12_ExactlyOnce ==
   [][\A t \in Txns : /\ (txn[t].res # "none" => txn'[t].res = txn[t].res)
                      /\ Cardinality({o \in out' : o.k = "ret" /\ o.t = t}) <= 1
-                     /\ ((txn[t].res = "none" /\ txn'[t].res # "none") <=> \E o \in out' : o.k = "ret" /\ o.t = t)]_vars
+                     /\ (~Ign(t) /\ last'.a # "StartIgnore") =>
+                           ((txn[t].res = "none" /\ txn'[t].res # "none") <=> \E o \in out' : o.k = "ret" /\ o.t = t)]_vars
 \* only its own response completes a transaction with success
 C12_OwnResponse ==
   [][\A o \in out' : (o.k = "ret" /\ o.res = "resp") =>
-        \/ (last'.a = "Response" /\ last'.t = o.t)
+        \/ (last'.a \in {"Response", "ResponseOther"} /\ last'.t = o.t)
         \/ (last'.a = "WriteDone" /\ last'.t = o.t /\ txn[o.t].got = "resp")]_vars   \* it arrived during the write
 \* the schedule: at most MaxSend transmissions, interval doubles and is capped
 C12_Schedule ==
